@@ -17,6 +17,8 @@ func main() {
 	switch os.Args[1] {
 	case "ledger":
 		ledgerMain(os.Args[2:])
+	case "locks":
+		locksMain(os.Args[2:])
 	default:
 		fatal("unknown driver %q", os.Args[1])
 	}
